@@ -1310,3 +1310,55 @@ def rule_boost_export_name(ctx, rep: Report, rid="W7"):
         ok_td = unparse(s1.expr) == nvar and unparse(s0.expr) == san[0][3] and g == san[0][2]
     rep.add(rid, "boost export:the alias is introduced by `typedef <class> <alias>;` under the same test, in front of the macro", ok_td,
             "typedef line missing, under another condition, or naming something else than the alias / the class", loc)
+
+
+def rule_one_binding_per_member(ctx, rep: Report, rid="A9"):
+    """Inside each per-member loop of the class emitters (wrap_methods, wrap_operators, ...), the member's emitter is
+    called exactly once without any condition; a further call for the same member - an additional, undeclared binding -
+    is only accepted when the facts established on its path pin both the class (`cpp_class == '<literal>'`) and the
+    member name (`<member>.name == '<literal>'`): the one special case the project documents (gtsam::Values::insert).
+    A weaker guard (a disjunction, a test of the name alone) exposes an extra `insert_<arg>` on every class that
+    happens to declare such a method."""
+    from .rules_xml import _split_facts
+    prog = ctx.prog
+    ci = prog.cls("PybindWrapper")
+    n = 0
+    for mname, fn in sorted(ci.methods.items()):
+        for loop in [x for x in walk_no_nested(fn) if isinstance(x, ast.For) and isinstance(x.target, ast.Name)]:
+            tv = loop.target.id
+            calls = [c for b in loop.body for c in ast.walk(b) if isinstance(c, ast.Call) and isinstance(c.func, ast.Attribute)
+                     and unparse(c.func.value) == "self" and c.func.attr.startswith(("_wrap_", "wrap_"))
+                     and any(isinstance(a, ast.Name) and a.id == tv for a in list(c.args) + [k.value for k in c.keywords])]
+            if not calls:
+                continue
+            by_callee: Dict[str, List[ast.Call]] = {}
+            for c in calls:
+                by_callee.setdefault(c.func.attr, []).append(c)
+            for callee, cs in sorted(by_callee.items()):
+                n += 1
+                if len(cs) == 1:
+                    rep.add(rid, f"{mname}:{callee}:one call per member", True, "", f"{ci.mod.rel}:{cs[0].lineno}", nontrivial=False)
+                    continue
+                extra = []
+                for c in cs:
+                    gs = [(t, p_) for t, p_ in guards_of(c, fn, include_exits=False)]
+                    # guards inside the loop only
+                    facts = []
+                    for t, p_ in gs:
+                        facts += _split_facts(ast.parse(t, mode="eval").body, p_)
+                    if not facts:
+                        continue
+                    pins_class = any(p_ and isinstance(t, ast.Compare) and len(t.ops) == 1 and isinstance(t.ops[0], ast.Eq)
+                                     and isinstance(t.comparators[0], ast.Constant) and isinstance(t.comparators[0].value, str)
+                                     and "class" in unparse(t.left) for t, p_ in facts)
+                    pins_name = any(p_ and isinstance(t, ast.Compare) and len(t.ops) == 1 and isinstance(t.ops[0], ast.Eq)
+                                    and isinstance(t.comparators[0], ast.Constant) and unparse(t.left) == f"{tv}.name" for t, p_ in facts)
+                    extra.append((c, pins_class and pins_name))
+                uncond = len(cs) - len(extra)
+                rep.add(rid, f"{mname}:{callee}:one unconditional call per member, extras pinned to a named class and member",
+                        uncond == 1 and all(ok for _, ok in extra),
+                        f"{len(cs)} calls per member, {uncond} unconditional; the additional call(s) at line(s) {[c.lineno for c, ok in extra if not ok]} are "
+                        f"not confined to one named class and one named member: other classes get a binding that no declaration asks for",
+                        f"{ci.mod.rel}:{cs[0].lineno}")
+    if n < 3:
+        raise AnalysisError(f"{rep.prop}/{rid}: only {n} per-member emitter loops found in PybindWrapper")
